@@ -385,6 +385,7 @@ func (r *Resolver) parseOutBoundAddrs(cfg *config.Config) {
 // (*Resolver).Resolve resolve starts a DNS resolution - public interface with old signature for compatibility.
 func (r *Resolver) Resolve(ctx context.Context, req *dns.Msg, servers *authority.Servers, root bool, depth int, level int, nomin bool, parentDS []dns.RR, extra ...bool) (*dns.Msg, error) {
 	ctx = dnssec.EnsureNSEC3HashMemo(ctx)
+	ctx = withNSAddrBudget(ctx)
 	ctx, _ = middleware.EnsureResolutionAttemptGuard(ctx)
 	hadWork := middleware.RecursionWorkFrom(ctx) != nil
 	ctx, work := middleware.EnsureRecursionWork(ctx, r.workPolicy)
@@ -3030,6 +3031,10 @@ func (r *Resolver) lookupV4Nss(ctx context.Context, q dns.Question, authservers 
 			r.delegations.SetUntil(key, parentDS, authservers, minNonZero(cutDeadline, time.Now().Add(time.Minute)))
 		}
 
+		if !takeNSAddrLookup(ctx) {
+			zlog.Debug("Name server address lookups exhausted for this request", "query", dnsutil.FormatQuestion(q), "ns", name)
+			return errMaxDepth
+		}
 		addrs, err := r.lookupNSAddrV4(ctx, name, cd)
 		nsipv4 := make(map[string][]netip.Addr)
 
